@@ -37,6 +37,9 @@ package main
 //     a local `var b bytes.Buffer` as the bytes written so far: b.WriteString(s) b.Write(p) b.WriteByte(c) b.Reset()
 //       template.HTMLEscape(&b, p) (text/template; the escaping itself is the parameter f_template_HTMLEscape : bstr -> bstr)
 //       b.String() b.Bytes() b.Len(); any other use of the variable is refused (copies and pointers would alias)
+//     re.ReplaceAllString(s, repl) on a package-level `var re = regexp.MustCompile(<constant>)`: the parameter
+//       re_<var>_ReplaceAllString : bstr -> bstr -> bstr (one per variable; the pattern text is emitted as src_<pkg>_<var>_pattern);
+//       template.HTMLEscapeString as the parameter f_template_HTMLEscapeString
 //     package-level `var m = make(map[V]K)` that a func init() fills as the inverse of a map literal (and nothing
 //       else touches): the inverse list, provided the literal's values are distinct
 //     panic(...)  and calls of methods whose own body ends in panic (t.errorf ...)
